@@ -35,6 +35,11 @@ retry_harness!(c07_q_xx_w2_outofturn, step_write_pre, 1, Pat::XX, 0, 2, Pre::Out
 retry_harness!(c07_q_xx_r2_outofturn, step_read_pre, 1, Pat::XX, 0, 2, Pre::OutOfTurn);
 retry_harness!(c07_q_xx_r2_smallpayloadbuf, step_read_pre, 2, Pat::XX, 0, 2, Pre::SmallPayloadBuf);
 retry_harness!(c07_q_x1n_w2_smallbuf_10, step_write_pre, 2, Pat::X1N, 0, 2, Pre::SmallBuf(10));
+// psk token last in its message (everything before it has been mixed when MissingPsk is raised)
+retry_harness!(c07_q_nnpsk1_w0_missingpsk, step_write_pre, 1, Pat::NN, 2, 0, Pre::MissingPsk(1));
+retry_harness!(c07_q_xxpsk3_r2_missingpsk, step_read_pre, 1, Pat::XX, 8, 2, Pre::MissingPsk(3));
+retry_harness!(c07_t_nnpsk0_w0_missingpsk, step_write_pre, 1, Pat::NN, 1, 0, Pre::MissingPsk(0));
+retry_harness!(c07_t_nnpsk2_r1_missingpsk, step_read_pre, 1, Pat::NN, 4, 1, Pre::MissingPsk(2));
 retry_harness!(c07_t_ik_w0_smallbuf_30, step_write_pre, 2, Pat::IK, 0, 0, Pre::SmallBuf(30));
 retry_harness!(c07_t_nnpsk0_w0_smallbuf_5, step_write_pre, 2, Pat::NN, 1, 0, Pre::SmallBuf(5));
 retry_harness!(c07_t_k1k1_w2_smallbuf_10, step_write_pre, 2, Pat::K1K1, 0, 2, Pre::SmallBuf(10));
